@@ -284,7 +284,7 @@ type c30Step struct {
 
 type c30Late struct {
 	Codes []vs.B    `json:"codes"`
-	Plan  []int     `json:"plan"` // n-th lookup overall: 0/1 answer at once false/true, 2/3 block then answer false/true (cyclic)
+	Plan  []int     `json:"plan"` // n-th lookup overall: 0/1 answer at once false/true, 2/3 block then answer false/true, 4/5 release the oldest blocked lookup, wait 4 ms, answer false/true (cyclic)
 	Steps []c30Step `json:"steps"`
 }
 
@@ -307,6 +307,20 @@ func (g *c30Gates) hasCommand(name string) bool {
 	if p < 2 {
 		g.mu.Unlock()
 		return p == 1
+	}
+	if p >= 4 {
+		// release the oldest blocked lookup (usually one of earlier code) now,
+		// i.e. while the Get that triggered this lookup is still in progress,
+		// then answer after a short while: the late result of the older code
+		// arrives during a Get of newer code
+		if len(g.blocked) > 0 {
+			close(g.blocked[0])
+			g.log = append(g.log, "released "+g.names[0]+" during the lookup of "+name)
+			g.blocked, g.names = g.blocked[1:], g.names[1:]
+		}
+		g.mu.Unlock()
+		time.Sleep(4 * time.Millisecond)
+		return p == 5
 	}
 	ch := make(chan struct{})
 	g.blocked = append(g.blocked, ch)
@@ -510,7 +524,7 @@ func c30GenLate(t *rapid.T) c30Late {
 			c.Codes = append(c.Codes, vs.B(c30GenLateCode(t, i)))
 		}
 	}
-	c.Plan = rapid.SliceOfN(rapid.SampledFrom([]int{2, 3, 2, 3, 2, 0, 1}), 1, 6).Draw(t, "plan")
+	c.Plan = rapid.SliceOfN(rapid.SampledFrom([]int{2, 3, 2, 3, 2, 0, 1, 4, 5, 4}), 1, 6).Draw(t, "plan")
 	nsteps := rapid.IntRange(3, 12).Draw(t, "nsteps")
 	for i := 0; i < nsteps; i++ {
 		switch rapid.SampledFrom([]int{1, 0, 1, 0, 1, 1, 0, 1, 2, 0}).Draw(t, "step") {
